@@ -167,7 +167,7 @@ def _dev_hash():
 def run_coqchk(files):
     """independent re-check of the compiled property files and everything they depend on (thorough tier).  coqchk is single-threaded and
     re-checks the whole dependency closure (the run-level files pull in most of the development: tens of minutes to hours), so it runs under
-    a time budget (VERIF_COQCHK_BUDGET seconds, default 1800).  Running out of the budget is NOT a rejection (coqc's kernel has accepted
+    a time budget (VERIF_COQCHK_BUDGET seconds, default 300 for the run-level files).  Running out of the budget is NOT a rejection (coqc's kernel has accepted
     every file; coqchk is the second, independent checker) and is reported as such; a rejection is.  Results are cached per content hash of
     all compiled files (coq/.coqchk/, not committed), so one completed run serves every later check of the same build;
     `harness/tools/coqchk_all.sh` fills the cache for all property files at once."""
@@ -185,7 +185,7 @@ def run_coqchk(files):
     # first the property's own file Cnn.v (the per-function theorems: a closure that coqchk re-checks in about a minute), then the run- and
     # configuration-level files (closure = most of the development), each group under its own budget
     prim = [m for m in mods if re.fullmatch(r"AC\.Properties\.C\d\d", m)]
-    groups = [(prim, 1500), ([m for m in mods if m not in prim], int(os.environ.get("VERIF_COQCHK_BUDGET", "900")))]
+    groups = [(prim, 1500), ([m for m in mods if m not in prim], int(os.environ.get("VERIF_COQCHK_BUDGET", "300")))]
     for group, budget in groups:
         pending = [m for m in group if m not in done.get("accepted", [])]
         if not pending:
